@@ -1010,3 +1010,33 @@ func vfEqPoppedProto(got []*aftpb.Afts_LabelEntry_PoppedMplsLabelStackUnion, wan
 	}
 	return ok
 }
+
+// compareContents: the whole-RIB view (RIBContents: what hooks, the reconciler and callers outside the package
+// see) shows exactly the folded entries - compared by table sizes and keys per instance.
+func (r *vfRef) compareContents(real *RIB) {
+	c, err := real.RIBContents()
+	vfAssert(err == nil, "C01:rib-contents-readable")
+	if err != nil {
+		return
+	}
+	for _, name := range r.names {
+		n := r.ni[name]
+		rr := c[name]
+		if rr == nil || rr.Afts == nil {
+			vfAssert(len(n.v4)+len(n.v6)+len(n.mpls)+len(n.nhg)+len(n.nh) == 0, "C01:rib-contents-equals-fold")
+			continue
+		}
+		a := rr.Afts
+		vfAssert(vfAnd(len(a.Ipv4Entry) == len(n.v4), vfAnd(len(a.Ipv6Entry) == len(n.v6), len(a.LabelEntry) == len(n.mpls))), "C01:rib-contents-equals-fold")
+		vfAssert(vfAnd(len(a.NextHopGroup) == len(n.nhg), len(a.NextHop) == len(n.nh)), "C01:rib-contents-equals-fold")
+		for k := range n.nhg {
+			vfAssert(a.NextHopGroup[k] != nil, "C01:rib-contents-equals-fold")
+		}
+		for k := range n.nh {
+			vfAssert(a.NextHop[k] != nil, "C01:rib-contents-equals-fold")
+		}
+		for k := range n.v4 {
+			vfAssert(a.Ipv4Entry[k] != nil, "C01:rib-contents-equals-fold")
+		}
+	}
+}
